@@ -20,7 +20,7 @@ FILEMAP = {
     "labels.go": ["C19", "C03"],
     "defaults.go": ["C19", "C03", "C09", "C01"],
     "dnsutil/util.go": ["C19"],
-    "types.go": ["C05", "C01", "C16", "C08"],
+    "types.go": ["C05", "C01", "C16", "C08", "C20"],
     "duplicate.go": ["C20"],
     "zduplicate.go": ["C20"],
     "sanitize.go": ["C20"],
